@@ -139,7 +139,22 @@ func (w *World) verifyFunc(fn *ssa.Function, c *FuncContract) (res *FuncResult) 
 	}
 	fr.args = args
 	// free variables of a closure verified on its own are created lazily
-	// ghost variables start unconstrained
+	// ghost variables start unconstrained; they exist in the entry state so that
+	// old(ghost.x) denotes the entry value
+	{
+		var gn []string
+		for n := range w.ghosts {
+			gn = append(gn, n)
+		}
+		sort.Strings(gn)
+		for _, n := range gn {
+			if gc := x.ghostCell(n); gc != nil {
+				if _, ok := st.cells[gc]; !ok {
+					x.initCell(st, gc)
+				}
+			}
+		}
+	}
 	env := fr.specEnv(st)
 	env.old = nil
 	for _, r := range c.Requires {
